@@ -11,6 +11,13 @@ type ArticleID string
 //
 // aidc is with fixed-size (8 bytes), no need the separator to do the separation.
 func ToArticleID(filename *ptttype.Filename_t) ArticleID {
+	if filename.IsDeleted() {
+		// a delete-marked entry keeps its timestamp and postfix: give it the id of
+		// its original name, so that it can still serve as a paging cursor.
+		origFilename := &ptttype.Filename_t{}
+		copy(origFilename[:], filename.Basename())
+		filename = origFilename
+	}
 	aidc := filename.ToAidu().ToAidc()
 	aidcStr := types.CstrToString(aidc[:])
 	return ArticleID(aidcStr)
